@@ -318,6 +318,13 @@ func (fx *FuncCtx) applyContract(st *State, x *ssa.Call, callee *ssa.Function, c
 		} else if ct.Safe {
 			st.obligeP("decreases", "rec.decreases#missing", False(), ct.SafeProps, x.Pos())
 		}
+	} else if ds, mine := ct.Decreases["rec"], fx.ct.Decreases["rec"]; len(ds) > 0 && len(mine) > 0 && fx.ct.Opts["recgroup"] != "" && fx.ct.Opts["recgroup"] == ct.Opts["recgroup"] {
+		// mutual recursion: both functions belong to the same declared recursion group; the callee's measure on the
+		// arguments is strictly below the caller's measure at entry (one common well-founded order for the group)
+		nv := env.eval(ds[0].Expr).(Term)
+		ov := fx.specEnv(fx.entry, nil).eval(mine[0].Expr).(Term)
+		g := And(BVSle(BVConst(nv.So.W, 0), ov), BVSlt(nv, ov))
+		st.obligeP("decreases", "rec.decreases#"+callee.Name(), g, fx.ct.SafeProps, x.Pos())
 	}
 	var ghostReq []Term
 	for _, c := range ct.Requires {
